@@ -17,6 +17,9 @@ structure Spec where
 
 def Spec.init : Spec := ⟨[], [], []⟩
 
+/-- bytes the stream has seen and not dropped -/
+def Spec.size (s : Spec) : Nat := s.sent.length + s.buf.length
+
 /-- what the specification permits: bytes leave only from the front of `buf`, in order;
 a drop cuts `buf` at a flush mark (or drops nothing) -/
 def Spec.Legal (s : Spec) : Ev → Prop
@@ -82,6 +85,8 @@ structure R (q : Q) (s : Spec) : Prop where
     | [] => q.offset = 0
     | c :: _ => q.offset ≤ c.length
   marks : ∀ m ∈ boundaries q, m ∈ s.marks
+  /-- the consumed part of the front chunk has left the queue -/
+  off_sent : q.offset ≤ s.sent.length
 
 /-- repeated `read` with a large buffer, one call per chunk -/
 def drain? : Nat → Q → Option (List UInt8)
@@ -94,20 +99,34 @@ def drain? : Nat → Q → Option (List UInt8)
       | none => none
       | some rest => some (out ++ rest)
 
-/-- a model call succeeds (no panic), its events are permitted by the specification, and the refinement
-relation holds again afterwards -/
-def Sim (s : Spec) (r : Option (Q × List Ev)) : Prop :=
-  ∃ q' evs, r = some (q', evs) ∧ s.Accepts evs ∧ R q' (s.run evs)
+/-- a model call succeeds (no panic), its events are permitted by the specification, the refinement
+relation holds again afterwards, the call queued exactly the bytes `w`, and (if `nd`) it dropped nothing -/
+def Sim (s : Spec) (r : Option (Q × List Ev)) (w : List UInt8) (nd : Bool) : Prop :=
+  ∃ q' evs, r = some (q', evs) ∧ s.Accepts evs ∧ R q' (s.run evs) ∧ written evs = w ∧
+    (nd = true → noDrop evs)
 
-open SurfModel.PollWrite in
-/-- bytes a terminal-level call queues, in program order -/
-def opWritten : TOp → List UInt8
+/-- bytes a queue call appends -/
+def opBytes : Op → List UInt8
   | .write b => b
-  | .poll its => (its.map fun it => it.inject.flatten).flatten
   | _ => []
 
+def opsWritten (ops : List Op) : List UInt8 := (ops.map opBytes).flatten
+
+def isClear : Op → Bool
+  | .clear => true
+  | _ => false
+
 open SurfModel.PollWrite in
-def progWritten (ops : List TOp) : List UInt8 := (ops.map opWritten).flatten
+/-- bytes a terminal-level call queues, in program order: the payload of a write, the bytes the poll loop
+queues itself, and — escape-sequence size mode — the size query `frames_drop` issues after the cut -/
+def opWritten (sizeEsc : Bool) : TOp → List UInt8
+  | .write b => b
+  | .poll its => (its.map fun it => it.inject.flatten).flatten
+  | .drop => if sizeEsc then getTermSize else []
+  | .flush => []
+
+open SurfModel.PollWrite in
+def progWritten (sizeEsc : Bool) (ops : List TOp) : List UInt8 := (ops.map (opWritten sizeEsc)).flatten
 
 open SurfModel.PollWrite in
 def isDrop : TOp → Bool
